@@ -95,8 +95,11 @@ structure Cfg where
   dottedRel : Bool
 deriving Repr, Inhabited, DecidableEq
 
-/-- the code as it is now -/
-def Cfg.current : Cfg := { starAll := true, relPkg := true, dottedRel := true }
+/-- the code as it is now (C11-F1 and C11-F4 repaired; the `__all__` repair C11-F6 was withdrawn at integration:
+packages whose `__all__` names not-yet-imported submodules would raise AttributeError, see findings.d/C11.json) -/
+def Cfg.current : Cfg := { starAll := false, relPkg := true, dottedRel := true }
+/-- the shape `from m import *` would have with the (withdrawn) repair of C11-F6 -/
+def Cfg.withAll : Cfg := { starAll := true, relPkg := true, dottedRel := true }
 /-- the code before the repairs of C11-F1, F4, F6 -/
 def Cfg.preFix : Cfg := { starAll := false, relPkg := false, dottedRel := false }
 
